@@ -34,19 +34,27 @@ def _jsonish(x):
     return x
 
 
-def h_history(init: List[Tuple[int, str]], ops: List[Tuple[int, int, str]]) -> bool:
-    """for every history of dict operations: initial (+) changes == current; after a JSON round
-    trip the object is equal, has the same initial map and its recomputed changes still reproduce
-    current; reset() restores the initial map
-    pre: len(init) <= NI and len(ops) == NO
-    pre: all(0 <= k < 3 and len(v) <= VL for k, v in init)
-    pre: all(0 <= o < 8 and 0 <= k < 3 and len(v) <= VL for o, k, v in ops)
+O0 = param('O0', -1)        # partition: first operation
+O1 = param('O1', -1)        # partition: second operation
+INITS = [[], [(0, 0)], [(0, 0), (1, 1)], [(0, 1), (1, 1), (2, 0)]]
+INIT = INITS[param('INIT', 0)]
+
+
+def h_history(ops: List[Tuple[int, int, int]], s0: str, s1: str) -> bool:
+    """for every history of dict operations (values: two arbitrary strings): initial (+) changes
+    == current; after a JSON round trip the object is equal, has the same initial map and its
+    recomputed changes still reproduce current; reset() restores the initial map
+    pre: len(ops) == NO and len(s0) <= VL and len(s1) <= VL
+    pre: all(0 <= o < 8 and 0 <= k < 3 and 0 <= v < 2 for o, k, v in ops)
+    pre: (O0 < 0 or ops[0][0] == O0) and (O1 < 0 or ops[1][0] == O1)
     post: _
     """
-    d = EnvVarDict({KEYS[k]: v for k, v in init})
+    vals = [s0, s1]
+    d = EnvVarDict({KEYS[k]: vals[v] for k, v in INIT})
     first = dict(d)
-    for o, k, v in ops:
+    for o, k, vi in ops:
         key = KEYS[k]
+        v = vals[vi]
         if o == 0:
             d[key] = v
         elif o == 1:
